@@ -63,7 +63,16 @@ def decorations():
     D.append(("modify", "p", "patch", ["inGroups (a)"]))
     D.append(("setting", "scale", 0.001))
     D.append(("setting", "mergeType", "points"))
+    # (appended later; the indexes of the statements above are part of recorded coordinates)
+    for op in (0, 1):
+        for side in ("left", "back", "bottom"):
+            D.append(("project_side", op, side, False, False))
     return D
+
+
+def plain_side_projections():
+    """indexes of the 12 statements project_side(op, side, 'geo') without edges / points"""
+    return [i for i, d in enumerate(decorations()) if d[0] == "project_side" and not d[3] and not d[4]]
 
 
 BASES = ["boxes", "box_loft", "cylinder", "hemi_box", "slit"]
@@ -147,6 +156,15 @@ def cases(tier, seed):
         if "modify" in kinds and kinds & {"set_patch", "set_patch2"}:
             out.append({"base": "boxes", "prog": [i, j], "late_delete": 0})
     # the built-in geometry of a sphere shape follows the shape: write, move the shape, clear(), write again
+    # projected sides of two touching boxes: every set of <= 3 of the 12 (operation, side) projections, for a contact
+    # across x, y and z and both orders of adding the boxes (the shared quad may be projected from either side or both)
+    PS = plain_side_projections()
+    for base in ("boxes_x", "boxes_y", "boxes_z", "boxes_rx", "boxes_ry", "boxes_rz"):
+        for r in (1, 2, 3):
+            for prog in itertools.combinations(PS, r):
+                if tier == "quick" and r == 3 and (sum(prog) + seed) % 2:
+                    continue
+                out.append({"base": base, "prog": list(prog)})
     for k in range(len(MOVES)):
         for redo in ("clear", "fresh_mesh"):
             out.append({"base": "hemi_box", "prog": [], "moved": k, "redo": redo})
@@ -159,7 +177,20 @@ def build_base(base):
     import classy_blocks as cb
 
     ents = []
-    if base in ("boxes", "slit"):
+    if base.startswith("boxes_"):
+        # two boxes that share a quad across x / y / z, the second one added first in the r* variants
+        axis = "xyz".index(base[-1])
+        for k in (0, 1):
+            lo, hi = [0.0, 0.0, 0.0], [1.0, 1.0, 1.0]
+            lo[axis] += k
+            hi[axis] += k
+            b = cb.Box(lo, hi)
+            for a, c in enumerate((2, 3, 4)):
+                b.chop(a, count=c if axis == 0 or a == axis else 3)
+            ents.append(b)
+        if base[-2] == "r":
+            ents.reverse()
+    elif base in ("boxes", "slit"):
         # "slit": two boxes that do not touch, 0.2 mm apart (distinct model points far closer than the cell size)
         for x in (0, 1):
             gap = 2e-4 * x if base == "slit" else 0.0
@@ -422,7 +453,9 @@ def run_case(case):
             vert_of[(o, c)] = blk["v"][c]
         if blk["zone"] != decl.zone[o]:
             bad("cell-zone", f"operation {o}: zone {blk['zone']!r}, declared {decl.zone[o]!r}")
-        if case["base"] in ("boxes", "slit") or (case["base"] == "box_loft" and o == 0) or (case["base"] == "hemi_box" and o == len(ops) - 1):
+        if case["base"].startswith("boxes_"):
+            pass
+        elif case["base"] in ("boxes", "slit") or (case["base"] == "box_loft" and o == 0) or (case["base"] == "hemi_box" and o == len(ops) - 1):
             if blk["counts"] != [2, 3, 4] and case["base"] != "box_loft":
                 bad("hex-counts", f"operation {o}: {blk['counts']}, chopped (2 3 4)")
         # counts and gradings: the model holds one grading per edge of the block (between two of its corners, in
